@@ -17,7 +17,7 @@ InAlphabet(e) ==
    (which exception, exact pos', return value, pos unchanged on rejection) are
    drift. *)
 MethodClauses(e) ==
-  LET s == Pre(e)  res == MethodF(s, CallOf(e)) IN
+  LET s0 == Pre(e)  res == MethodF(s0, CallOf(e)) IN
   << <<"harness-guard", InAlphabet(e)>>,
      <<"out-of-bounds-accepted", ~(e.died = 0 /\ e.out.kind = "ok" /\ res.out.kind \in {Rd, Wr})>>,
      <<"sanitizer", e.san = "">>,
@@ -27,7 +27,7 @@ MethodClauses(e) ==
      <<"model:outcome", e.out.kind = res.out.kind>>,
      <<"model:pos", e.pos2 = res.st.pos>>,
      <<"model:return", e.out.kind = "ok" /\ res.out.kind = "ok" => e.out.ret = res.out.ret>>,
-     <<"model:step", StepOk(s, res)>> >>
+     <<"model:step", StepOk(s0, res)>> >>
 
 NewClauses(e) ==
   << <<"negative-capacity-accepted", ~(e.died = 0 /\ e.out.kind = "ok" /\ FitsSsize(e.a) /\ Neg(e.a))>>,
